@@ -117,6 +117,39 @@ def np_shim(v, extra=None):
     return ShimNumpy(ov)
 
 
+def env_defined(v, ids, E, disc, nA, dims=2):
+    """environment-defined actions for `infos`: per (agent, env) a symbolic flag (decided by forking) says whether the
+    environment defines the action; undefined rows are NaN.  Returns (arrays per agent, {(agent, env): defined})"""
+    defined, eda = {}, {}
+    for a in ids:
+        arr = np.empty((E,) if disc else (E, dims), dtype=object)
+        for e in range(E):
+            is_def = bool(eq(v.flag(f"def_{a}_{e}"), 1))          # forks: which pairs are defined is part of the path
+            defined[a, e] = is_def
+            if disc:
+                x = v.int(f"eda_{a}_{e}")
+                v.assume(conj(x >= 0, x < nA))
+                arr[e] = x if is_def else np.nan
+            else:
+                for k in range(dims):
+                    x = v.real(f"eda_{a}_{e}_{k}")
+                    arr[e, k] = x if is_def else np.nan
+        if v.mode == "real" or not any(isinstance(x, Sym) for x in arr.reshape(-1)):
+            arr = arr.astype(np.float64)
+        eda[a] = arr
+    return eda, defined
+
+
+def sym_isnan(x):
+    x = np.asarray(x)
+    if x.dtype != object:
+        return np.isnan(x)
+    out = np.zeros(x.shape, dtype=bool)
+    for idx in np.ndindex(x.shape):
+        out[idx] = (not isinstance(x[idx], Sym)) and bool(np.isnan(float(x[idx])))
+    return out
+
+
 def legal_discrete(obs, act, B, A, mask=None, tag=""):
     out = []
     for b in range(B):
@@ -484,12 +517,20 @@ class MAAction(Case):
                     v.assume(disj(*[eq(m[b, k], 1) for k in range(nA)]))
                 masks[a] = m
                 infos[a]["action_mask"] = m
+        defined = {}
+        if self.env_defined:
+            eda, defined = env_defined(v, ids, B, self.discrete, nA, dims=nA)
+            for a in ids:
+                infos[a]["env_defined_actions"] = eda[a]
         patches = [(agent, "actors", actors), (agent, "action_noise", noise)]
         if v.mode != "real":
-            patches += [(mod, "np", np_shim(v)), (au, "torch", ShimTorch())]
+            import agilerl.algorithms.core.base as base_mod
+            patches += [(mod, "np", np_shim(v)), (au, "torch", ShimTorch()), (base_mod, "np", ShimNumpy({"isnan": sym_isnan}))]
         with patched(*patches):
             cont, disc = agent.get_action(obs, training=self.training, infos=infos)
         res = []
+        if self.env_defined:
+            res.append(Ob("twin/no-action-is-environment-defined", not any(defined.values()), expect="sat"))
         for a in ids:
             if self.discrete:
                 act = np.asarray(disc[a])
@@ -500,6 +541,9 @@ class MAAction(Case):
                 for b in range(B):
                     x = act[b]
                     res.append(Ob(f"{a}/row{b}/action-is-a-valid-index", conj(x >= 0, x < nA)))
+                    if defined.get((a, b)):
+                        res.append(Ob(f"{a}/row{b}/environment-defined-action-is-returned", eq(x, eda[a][b]), site=self.site + "/env-defined-actions"))
+                        continue
                     if self.masked:
                         res.append(Ob(f"{a}/row{b}/masked-action-never-chosen", disj(*[conj(eq(x, k), eq(masks[a][b, k], 1)) for k in range(nA)]), site=self.site + "/mask"))
             else:
@@ -509,8 +553,190 @@ class MAAction(Case):
                     continue
                 for b in range(B):
                     for k in range(nA):
+                        if defined.get((a, b)):
+                            res.append(Ob(f"{a}/row{b}/dim{k}/environment-defined-action-is-returned", eq(act[b, k], eda[a][b, k]), site=self.site + "/env-defined-actions"))
+                            continue
                         res.append(Ob(f"{a}/row{b}/dim{k}/inside-the-bounds", conj(ge(act[b, k], self.LOW[k]), le(act[b, k], self.HIGH[k])),
                                       site=self.site + "/clamp-uses-first-dimension-bounds"))
+        return res
+
+
+class IPPOAction(Case):
+    """IPPO.get_action with Box action spaces: the real StochasticActor.forward (scaling of a squashed sample) and the
+    evaluation-mode clipping / scaling in get_action, through the homogeneous-agent assembly"""
+    stubs = ("actor.extract_features = identity, actor.head_net.forward = stub returning symbolic (sample, log_prob, entropy); with squash_output the head "
+             "returns tanh(u) in [-1,1]; the REAL StochasticActor.forward runs (IPPO calls the actor, so its scaling is on this path)", "critic = stub")
+    LOW, HIGH = [-1.0, 0.5], [2.0, 0.75]
+
+    def __init__(self, squash, training, A=2, E=1):
+        from agilerl.algorithms.ippo import IPPO
+        from agilerl.networks.actors import StochasticActor
+        self.squash, self.training, self.A, self.E = squash, training, A, E
+        self.functions = (IPPO.get_action, StochasticActor.forward, StochasticActor.scale_action)
+        self.name = f"ippo-box-action-{'squash' if squash else 'nosquash'}-{'train' if training else 'eval'}-A{A}-E{E}"
+        self.site = "IPPO.get_action"
+        self.exception_site = "IPPO.get_action/eval-squash-scales-the-scaled-action-again" if (squash and not training) else None
+        self.bounds = {"homogeneous_agents": A, "num_envs": E, "action_dims": 2, "squash_output": squash, "training": training,
+                       "bounds": "per-dimension: low [-1, 0.5], high [2, 0.75]", "symbolic": "policy samples"}
+        self._agent = None
+
+    def agent(self):
+        from agilerl.algorithms.ippo import IPPO
+        if self._agent is None:
+            try:
+                ids = [f"ag_{i}" for i in range(self.A)]
+                asp = spaces.Box(np.array(self.LOW, dtype=np.float32), np.array(self.HIGH, dtype=np.float32))
+                from agilerl.networks.actors import StochasticActor
+                from agilerl.networks.value_networks import ValueNetwork
+                osp = spaces.Box(-1, 1, (1,))
+                cfg = {"encoder_config": {"hidden_size": [2]}, "head_config": {"hidden_size": [2]}}
+                # (IPPO hands its net_config to the critic too, which does not know squash_output: a squashed policy is passed in)
+                self._agent = IPPO([osp] * self.A, [asp] * self.A, agent_ids=ids, actor_networks=[StochasticActor(osp, asp, squash_output=self.squash, **cfg)],
+                                   critic_networks=[ValueNetwork(osp, **cfg)])
+            except Exception as ex:   # noqa: BLE001
+                raise HarnessError(f"could not build IPPO: {type(ex).__name__}: {ex}")
+            if bool(self._agent.actors[0].squash_output) != self.squash:
+                raise HarnessError("could not configure squash_output")
+        return self._agent
+
+    def run(self, v):
+        import agilerl.algorithms.ippo as ippo_mod
+        A, E = self.A, self.E
+        N = A * E
+        agent = self.agent()
+        require(agent, "actors", "critics", "training", "homogeneous_agents")
+        if len(agent.actors) != 1:
+            raise HarnessError("expected one shared policy")
+        actor = agent.actors[0]
+        require(actor, "extract_features", "head_net", "scale_action", "squash_output")
+        ids = list(agent.agent_ids)
+        raw = v.tensor("sample", (N, 2))
+        if self.squash:
+            for b in range(N):
+                for k in range(2):
+                    v.assume(conj(val(raw, b, k) >= -1, val(raw, b, k) <= 1), "a squashed head returns tanh(u) in [-1,1]")
+        lp, ent = v.tensor("lp", (N,)), v.tensor("ent", (N,))
+        obs = {a: v.array(f"o_{a}", (E, 1)) for a in ids}
+
+        class Critic:
+            def __call__(self, x):
+                return v.tensor("val", (x.shape[0], 1))
+
+            def eval(self):
+                return self
+
+        patches = [(actor, "extract_features", lambda o: o), (actor.head_net, "forward", lambda latent, mask=None: (raw, lp, ent)),
+                   (agent, "critics", [Critic()]), (agent, "training", self.training)]
+        if v.mode != "real":
+            patches += [(au, "torch", ShimTorch()), (ippo_mod, "torch", ShimTorch())]
+        with patched(*patches):
+            act, _, _, _ = agent.get_action(obs)
+        res = [Ob("one-action-array-per-agent", sorted(act.keys()) == sorted(ids))]
+        if not res[0].cond:
+            return res
+        # row of the shared batch that belongs to (agent, env): the assembly stacks agent-major (C15 decides the routing)
+        for i, a in enumerate(ids):
+            arr = np.asarray(act[a])
+            res.append(Ob(f"{a}/action-has-the-batch-shape", tuple(arr.shape) == (E, 2)))
+            if tuple(arr.shape) != (E, 2):
+                continue
+            for e in range(E):
+                r = i * E + e
+                for k in range(2):
+                    lo, hi = self.LOW[k], self.HIGH[k]
+                    scaled = lo + 0.5 * (val(raw, r, k) + 1) * (hi - lo)
+                    if self.squash:
+                        res.append(Ob(f"{a}/env{e}/dim{k}/squashed-sample-is-scaled-affinely-into-the-box-exactly-once", eq(arr[e, k], scaled), site=self.exception_site or self.site + "/squash-scaling"))
+                    if not self.training or self.squash:
+                        res.append(Ob(f"{a}/env{e}/dim{k}/action-inside-the-bounds", conj(ge(arr[e, k], lo), le(arr[e, k], hi)), site=self.exception_site or self.site + "/bounds"))
+                    if not self.squash:
+                        want = val(raw, r, k) if self.training else smin(smax(val(raw, r, k), lo), hi)
+                        res.append(Ob(f"{a}/env{e}/dim{k}/{'training-action-is-the-sample' if self.training else 'evaluation-action-is-the-clipped-sample'}", eq(arr[e, k], want)))
+        return res
+
+
+class IPPOEnvDefined(Case):
+    """IPPO.get_action with environment-defined actions in `infos` (NaN = not defined): a defined action is returned as it
+    is, every other row keeps the policy's own sample"""
+    stubs = ("actor = stub returning symbolic samples (valid indices / reals), critic = stub", "numpy.isnan of agilerl.algorithms.core.base works elementwise on arrays that hold symbols")
+    assumptions = ("per (agent, env) the environment either defines the whole action or none of it (NaN)",)
+
+    def __init__(self, discrete, A=2, E=2):
+        from agilerl.algorithms.ippo import IPPO
+        self.discrete, self.A, self.E = discrete, A, E
+        self.functions = (IPPO.get_action, IPPO.extract_agent_masks, IPPO.process_infos)
+        self.name = f"ippo-env-defined-{'discrete' if discrete else 'box'}-A{A}-E{E}"
+        self.site = "IPPO.get_action/env-defined-actions"
+        self.bounds = {"homogeneous_agents": A, "num_envs": E, "actions": "Discrete(3)" if discrete else "Box(2)", "symbolic": "policy samples, which (agent, env) pairs the environment defines, the defined actions"}
+        self._agent = None
+
+    def agent(self):
+        from agilerl.algorithms.ippo import IPPO
+        if self._agent is None:
+            try:
+                ids = [f"ag_{i}" for i in range(self.A)]
+                asp = spaces.Discrete(3) if self.discrete else spaces.Box(-1, 1, (2,))
+                self._agent = IPPO([spaces.Box(-1, 1, (1,))] * self.A, [asp] * self.A, agent_ids=ids, net_config={"encoder_config": {"hidden_size": [2]}, "head_config": {"hidden_size": [2]}})
+            except Exception as ex:   # noqa: BLE001
+                raise HarnessError(f"could not build IPPO: {type(ex).__name__}: {ex}")
+        return self._agent
+
+    def run(self, v):
+        import agilerl.algorithms.ippo as ippo_mod
+        import agilerl.algorithms.core.base as base_mod
+        A, E, disc = self.A, self.E, self.discrete
+        N, nA = A * E, 3
+        agent = self.agent()
+        ids = list(agent.agent_ids)
+        if disc:
+            raw = v.tensor("sample", (N,), "int")
+            for r in range(N):
+                v.assume(conj(val(raw, r) >= 0, val(raw, r) < nA), "the policy samples a valid index")
+        else:
+            raw = v.tensor("sample", (N, 2))
+        obs = {a: v.array(f"o_{a}", (E, 1)) for a in ids}
+        eda, defined = env_defined(v, ids, E, disc, nA)
+        infos = {a: {"env_defined_actions": eda[a]} for a in ids}
+        isnan = sym_isnan
+
+        class Actor:
+            squash_output = False
+
+            def __call__(self, x, action_mask=None):
+                return raw, v.tensor("lp", (N,)), v.tensor("ent", (N,))
+
+            def eval(self):
+                return self
+
+        class Critic(Actor):
+            def __call__(self, x):
+                return v.tensor("val", (N, 1))
+
+        patches = [(agent, "actors", [Actor()]), (agent, "critics", [Critic()]), (agent, "training", True)]
+        if v.mode != "real":
+            patches += [(au, "torch", ShimTorch()), (ippo_mod, "torch", ShimTorch()), (base_mod, "np", ShimNumpy({"isnan": isnan}))]
+        with patched(*patches):
+            act, _, _, _ = agent.get_action(obs, infos)
+        res = []
+        for i, a in enumerate(ids):
+            arr = np.asarray(act[a])
+            ok_shape = arr.shape[0] == E and arr.size == E * (1 if disc else 2)
+            res.append(Ob(f"{a}/action-has-the-batch-shape", ok_shape))
+            if not ok_shape:
+                continue
+            arr = arr.reshape(E, -1)
+            for e in range(E):
+                r = i * E + e
+                for k in range(1 if disc else 2):
+                    pol = val(raw, r) if disc else val(raw, r, k)
+                    if defined[a, e]:
+                        want = eda[a][e] if disc else eda[a][e, k]
+                        res.append(Ob(f"{a}/env{e}/dim{k}/environment-defined-action-is-returned", eq(arr[e, k], want), site=self.site))
+                    else:
+                        res.append(Ob(f"{a}/env{e}/dim{k}/policy-action-is-kept-where-the-environment-defines-none", eq(arr[e, k], pol), site=self.site))
+                if disc:
+                    res.append(Ob(f"{a}/env{e}/action-is-a-valid-index", conj(ge(arr[e, 0], 0), lt(arr[e, 0], nA)), site=self.site))
+        res.append(Ob("twin/no-action-is-environment-defined", not any(defined.values()), expect="sat"))
         return res
 
 
@@ -522,8 +748,13 @@ def cases(tier):
           RescaleAction("Tanh"), RescaleAction("Sigmoid"), RescaleAction("Softsign", B=1, D=3),
           PPOEvalAction(False, False), PPOEvalAction(False, True), PPOEvalAction(True, False), PPOEvalAction(True, True),
           MAAction("MADDPG", False, True), MAAction("MADDPG", False, False), MAAction("MADDPG", True, True, masked=True, B=1, nA=2),
-          MAAction("MADDPG", True, False, masked=True, B=1), MAAction("MATD3", False, True, B=1), MAAction("MATD3", True, False, masked=True, B=1)]
+          MAAction("MADDPG", True, False, masked=True, B=1), MAAction("MATD3", False, True, B=1), MAAction("MATD3", True, False, masked=True, B=1),
+          IPPOAction(True, False), IPPOAction(True, True), IPPOAction(False, False), IPPOAction(False, True, A=1, E=2),
+          IPPOEnvDefined(True), IPPOEnvDefined(False, A=2, E=1),
+          MAAction("MADDPG", True, True, masked=True, env_defined=True, B=1, nA=2), MAAction("MADDPG", False, True, env_defined=True, B=1), MAAction("MATD3", True, False, env_defined=True, B=1)]
     if tier == "thorough":
         cs += [DQNAction(1, 4, True, False), DQNAction(1, 4, True, True), DQNAction(3, 2, True, True), MaskedArgmaxAction("CQN", 2, 4, True), MaskedArgmaxAction("RainbowDQN", 2, 4, True),
-               ClipAction("DDPG", 2, False), MAAction("MADDPG", True, False, masked=True, B=2), MAAction("MATD3", False, False, B=2)]
+               ClipAction("DDPG", 2, False), MAAction("MADDPG", True, False, masked=True, B=2), MAAction("MATD3", False, False, B=2),
+               MAAction("MADDPG", True, False, env_defined=True, B=2, nA=2), MAAction("MATD3", False, True, env_defined=True, B=2), IPPOEnvDefined(True, A=2, E=3), IPPOEnvDefined(False, A=2, E=2),
+               IPPOAction(True, False, A=2, E=2), IPPOAction(False, False, A=1, E=3)]
     return cs
